@@ -116,6 +116,7 @@ fn functional_vs_eos(m: &mut Monitor, cfg: &Config) {
         "pcsaft",
         "pcsaft-assoc",
         "pcsaft-crossassoc",
+        "pcsaft-solvating",
         "pcsaft-polar",
         "gc-pcsaft",
         "pets",
@@ -386,6 +387,19 @@ fn association_paths(m: &mut Monitor, cfg: &Config) {
         let mut rng = Rng::derive(cfg.seed, "c08-assoc", i);
         // exactly one associating component (one A-B site pair), plus 0..2 inert ones
         let mut pure = vec![rng.choose(&assoc).record.clone()];
+        if rng.bool(0.4) {
+            // solvating pair: the single A site and the single B site sit on different components
+            // (still the closed-form branch)
+            let mut donor = pure[0].clone();
+            let mut acceptor = rng.choose(&assoc).record.clone();
+            donor["model_record"]["na"] = json!(1.0);
+            donor["model_record"]["nb"] = json!(0.0);
+            acceptor["model_record"]["na"] = json!(0.0);
+            acceptor["model_record"]["nb"] = json!(1.0);
+            acceptor["identifier"]["name"] = json!(format!("{} (acceptor)", acceptor["identifier"]["name"].as_str().unwrap_or("?")));
+            acceptor["identifier"]["cas"] = json!("acceptor");
+            pure = vec![donor, acceptor];
+        }
         for _ in 0..rng.below(3) {
             pure.push(rng.choose(&non).record.clone());
         }
